@@ -23,7 +23,8 @@ EXPLANATION = (
     "the loop over fold models to hstack(pop(0)) of the per-fold score list "
     "and of the per-fold target list (both filled per enumerate index of "
     "the same fold slices), a RuntimeError is re-raised as an explicit "
-    "error and nothing is yielded on that path. NOT decided: a > b for "
+    "error and nothing is yielded on that path. Also: the model-versus-best-feature comparison of brew (shared with C07a) decides whether the calibrated scores are what is returned. "
+    "NOT decided: a > b for "
     "given data (strict monotonicity), estimator behaviour.")
 TECHNIQUE = ("def-use term reconstruction + linear normal form + CFG "
              "guard/raise pairing + sibling agreement")
